@@ -21,3 +21,4 @@ def rules(ctx):
     S.c07_rules(ctx)
     S.tracker_state_rules(ctx)
     S.loop_completeness_rules(ctx)
+    S.cache_reset_rules(ctx)
